@@ -10,9 +10,9 @@ RULE = (
     "one evaluation = one simulated connection: configuration (reno/cubic, QUIC v1/v2, small flow-control windows, max_datagram_size) x "
     "application script (writes of 0..20000 bytes with/without FIN, FIN-only writes, resets, stop-sending, pings, key updates, connection-ID "
     "changes, client address rebinds, on bidirectional and unidirectional streams, both directions) x per-datagram fates (deliver with delay, "
-    "drop, duplicate, long delay) for a 3 s adversarial phase, then 20 s of fair delivery. Oracle after every event: delivered bytes are a prefix "
+    "drop, duplicate, long delay) for a 3 s adversarial phase, then 20 s of fair delivery (datagrams addressed to an address the client has left are lost in the adversarial phase, and in the fair phase too once the server has heard from and answered to the current address). Oracle after every event: delivered bytes are a prefix "
     "of the written bytes, at most one end marker and only after everything; at the end of the fair phase: every byte, FIN and ping delivered; "
-    "never a ConnectionTerminated. Non-trivial = at least one datagram was dropped or duplicated and at least one stream delivered its FIN; "
+    "never a ConnectionTerminated. Non-trivial = at least one datagram was dropped, duplicated or held back across an address change and at least one stream delivered its FIN; "
     "distinct by the case digest."
 )
 ASSUMPTIONS = [
